@@ -702,6 +702,40 @@ def tree_linked(sch):
     return True
 
 
+def real_lex(text):
+    """the real lexer's token stream of `text + '.'` as (class, lexeme) in the driver's shape"""
+    T = tsql._TSQLLexer.tokentypes
+    out = []
+    fixed = {"FROM": "FROM", "WHERE": "WHERE", "REPORT": "REPORT", "STAR": "STAR", "DOT": "DOT", "AND": "AND",
+             "OR": "OR", "NOT": "NOT", "LPAREN": "LP", "RPAREN": "RP"}
+    try:
+        for gid, form, _, _, _ in tsql._TSQLLexer.prelex((text + ".").splitlines()):
+            name = T(gid).name
+            if name in fixed:
+                out.append([fixed[name]])
+            elif name == "OP":
+                out.append(["OP", form])
+            elif name in ("DQSTRING", "SQSTRING"):
+                out.append(["STR", cps(form)])
+            elif name == "YYYYMMDD":
+                out.append(["YMD", cps(form)])
+            elif name == "DDMMYY":
+                out.append(["DMY", cps(form)])
+            elif name == "QID":
+                a, b = form.split(".")
+                out.append(["QID", cps(a), cps(b)])
+            else:
+                out.append([name, cps(form)])
+    except tsql.TSQLSyntaxError:
+        return {"err": "TSQLSyntaxError"}
+    return {"ok": out}
+
+
+def lex_comparable(text):
+    """the lexer model covers ASCII text with '\n' as the only line separator"""
+    return all(ord(c) < 128 for c in text) and not any(c in text for c in "\r\x0b\x0c\x1c\x1d\x1e")
+
+
 class Unanswerable(Exception):
     """the query names something that does not exist / cannot be connected / is ill-typed"""
     def __init__(self, why):
@@ -968,6 +1002,17 @@ class C11(Check):
                      "i-id where not not i-id = 1 | i-id = 3", "i-id where (not i-id = 1) or i-id = 3",
                      "i-id where not i-id = 1 where i-id = 3"):
             yield {"kind": "notprec", "text": cps(text)}
+        # lexer stress: fragments glued with and without white space (compared with the lexer model only)
+        frags = ["from", "where", "report", "and", "or", "not", "now", ":today", "*", ".", "=", "==", "!=", "~", "!~",
+                 "<=", "<", ">=", ">", "&&", "&", "||", "|", "!", "(", ")", '"a b"', "'x'", '"a\\"b"', "'it\\'s'", '"',
+                 "'", "2020-01-01", "2020-1-1", "2020-jan-01", "2020-13", "1-jan-2020", "jan-2020", "jan-20", "12-2020",
+                 "1-1-20", "10-5", "2020-02-02 (10:30)", "2020-02-02(10:30:00)", "2020-02-02 10:30:00",
+                 "2020-02-02 10:30", " (10:30)", " 10:30:00", "5", "+5", "-5", "007", "+", "-", ":", "i-id", "item.i-id",
+                 "item.", ".i-id", "a.b.c", "order", "android", "nowhere", "FROM", "x_1", "mar-x", "dec-99", "may-2020x",
+                 "#", "@", ";", "\\", " ", " ", "  ", "\n", "\t"]
+        for _ in range(300 if tier == "quick" else 6000):
+            k = rng.choice([1, 2, 2, 3, 3, 4, 5, 7])
+            yield {"kind": "lextext", "text": cps("".join(rng.choice(frags) for _ in range(k)))}
         # random part
         for _ in range(n):
             r = rng.random()
@@ -1033,6 +1078,13 @@ class C11(Check):
             return {"err": "StopIteration"}
 
     def impl(self, case):
+        res = self._impl(case)
+        text = uncps(case["text"])
+        if case["kind"] != "kwdate" and lex_comparable(text):
+            res["lex"] = real_lex(text)
+        return res
+
+    def _impl(self, case):
         k = case["kind"]
         text = uncps(case["text"])
         if k == "kwdate":
@@ -1043,7 +1095,7 @@ class C11(Check):
                 return {"parse": "datetime-now" if near else "other"}
             except tsql.TSQLSyntaxError:
                 return {"parse": {"err": "TSQLSyntaxError"}}
-        if k in ("mangled", "kwprefix", "notprec"):
+        if k in ("mangled", "kwprefix", "notprec", "lextext"):
             return {"parse": self._parse(text)}
         res = {"parse": self._parse(text)}
         d = self._mkdb(case)
@@ -1072,9 +1124,17 @@ class C11(Check):
 
     # ---- model
     def model_request(self, case):
+        r = self._model_request(case)
+        if r is not None and lex_comparable(uncps(case["text"])):
+            r["text"] = case["text"]
+        return r
+
+    def _model_request(self, case):
         k = case["kind"]
         if k == "kwdate":
             return None
+        if k == "lextext":
+            return {"op": "lex"}
         if k in ("kwprefix", "notprec"):
             toks = real_tokens(uncps(case["text"]))
             if toks is None:
@@ -1121,6 +1181,12 @@ class C11(Check):
     def model_compare(self, case, expected, answer):
         if "proto_error" in answer:
             return {"proto_error": answer}
+        if case["kind"] == "lextext":
+            if "lex" in expected and canon_plain(expected["lex"]) != canon_plain(answer):
+                return {"what": "lex", "impl": expected["lex"], "model": answer}
+            return None
+        if "lex" in expected and canon_plain(expected["lex"]) != canon_plain(answer.get("lex")):
+            return {"what": "lex", "impl": expected["lex"], "model": answer.get("lex")}
         if canon_plain(expected["parse"]) != canon_plain(answer.get("parse")):
             return {"what": "parse", "impl": expected["parse"], "model": answer.get("parse")}
         if case["kind"] != "select":
@@ -1156,6 +1222,8 @@ class C11(Check):
             return fails
         if k == "kwprefix":
             return fails        # recorded only (DESIGN §C11 Limits)
+        if k == "lextext":
+            return fails        # lexer model correspondence only
         if k == "notprec":
             if "ok" not in res["parse"]:
                 fail("a sentence of the documented grammar is rejected", uncps(case["text"]))
